@@ -1020,6 +1020,9 @@ impl MmapXen {
         len: usize,
     ) -> MmapXenSlice {
         match mmap_xen {
+            // An empty range touches no memory: there is nothing to map (and a zero-length
+            // mmap() is rejected by the kernel with EINVAL).
+            Some(_) if len == 0 => MmapXenSlice::raw(addr),
             Some(mmap_xen) => mmap_xen.mmap.mmap_slice(addr, prot, len).unwrap(),
             None => MmapXenSlice::raw(addr),
         }
